@@ -74,11 +74,12 @@ def ascending : List α → Bool
   | a :: b :: rest => decide (a ≤ b) && ascending (b :: rest)
 
 /-- the full observation of a collection:
-`<getRange(i).begin end>* ; totalLength ; size isEmpty ; <getBounds / getSet>* ; toString` -/
+`<getRange(i).begin end>* ; totalLength ; size isEmpty ; <getBounds / getSet>* ; <cells owned
+twice, over all registers: 0 by theorem `copy_independent` (predicate `Sep`)> ; toString` -/
 def showColl (sc : Nat) (l : List (Range α)) : String :=
   showRanges sc l ++ " ; " ++ toString (RangeCollection.totalLength l) ++ " ; " ++
     toString (RangeCollection.size l) ++ " " ++ showBool (RangeCollection.isEmpty l) ++ " ; " ++
-    showRanges sc l ++ " ; " ++ RangeCollection.toString l
+    showRanges sc l ++ " ; 0 ; " ++ RangeCollection.toString l
 
 structure Obs (α : Type) where
   l : List (Range α)
@@ -86,26 +87,28 @@ structure Obs (α : Type) where
   size : Int
   empty : String
   bounds : List α
+  shared : Int
   str : List String
 
 def parseObs (sc : Nat) (t : List String) : Option (Obs α) :=
   match splitTok ";" t with
-  | bs :: [len] :: [size, empty] :: gb :: rest =>
-    match ints? bs, int? len, int? size, ints? gb with
-    | some bs, some len, some size, some gb =>
+  | bs :: [len] :: [size, empty] :: gb :: [sh] :: rest =>
+    match ints? bs, int? len, int? size, ints? gb, int? sh with
+    | some bs, some len, some size, some gb, some sh =>
       match parseRanges (α := α) sc bs with
       | some l => some { l := l, len := len, size := size, empty := empty,
-                         bounds := gb.map (fun v => Wire.ofScript v sc),
+                         bounds := gb.map (fun v => Wire.ofScript v sc), shared := sh,
                          str := (rest.intersperse [";"]).flatten }
       | none => none
-    | _, _, _, _ => none
+    | _, _, _, _, _ => none
   | _ => none
 
 /-- observers that must agree with each other on the implementation's own answer:
 `size`, `isEmpty`, `getBounds` / `getSet`, `toString` against `getRange` (theorems
 `collection_observers`, `bounds_sorted`; `toString` by the model's function) -/
 def obsVerdict (o : Obs α) (isMr : Bool) : Option String :=
-  if o.size != (o.l.length : Nat) then some "FAIL:size"
+  if o.shared != 0 then some "FAIL:copy_independent"
+  else if o.size != (o.l.length : Nat) then some "FAIL:size"
   else if o.empty != showBool (o.l.length == 0) then some "FAIL:isEmpty"
   else if o.bounds != MultiRange.getBounds o.l then some "FAIL:getBounds"
   else if isMr && !ascending o.bounds then some "FAIL:bounds_sorted"
